@@ -117,6 +117,33 @@ type Program struct {
 	Top       *Call // top-level call (Id == Callee)
 }
 
+// FileKind is Universe.FileKind extended to the output structs of the
+// program's stages and pipelines.
+func (p *Program) FileKind(ty Ty) int {
+	return p.fileKindBase(ty.Base, 0)
+}
+
+func (p *Program) fileKindBase(b string, depth int) int {
+	if k := p.U.fileKindBase(b, depth); k > 0 || depth > 8 {
+		return k
+	}
+	if p.U.Struct(b) != nil {
+		// structs may have fields of callable struct type? (not generated)
+		return 0
+	}
+	if p.Stage(b) == nil && p.Pipeline(b) == nil {
+		return 0
+	}
+	_, outs, _ := p.Callable(b)
+	k := 0
+	for _, o := range outs {
+		if fk := p.fileKindBase(o.T.Base, depth+1); fk > k {
+			k = fk
+		}
+	}
+	return k
+}
+
 func (p *Program) Stage(name string) *Stage {
 	for _, s := range p.Stages {
 		if s.Name == name {
